@@ -112,17 +112,28 @@ var zzPerms3 = [][]int{{0, 1, 2}, {0, 2, 1}, {1, 0, 2}, {1, 2, 0}, {2, 0, 1}, {2
 
 func (k *zzKV) Query(ctx context.Context, q query.Query) (query.Results, error) {
 	n := len(k.keys)
-	if n > 3 {
-		zzsym.Unsupported("zzKV.Query with more than 3 live entries")
+	if n > 5 {
+		zzsym.Unsupported("zzKV.Query with more than 5 live entries")
 	}
-	order := []int{0, 1, 2}[:n]
+	order := []int{0, 1, 2, 3, 4}[:n]
+	if n > 3 {
+		// any permutation, chosen element by element
+		rest := append([]int(nil), order...)
+		order = nil
+		for len(rest) > 1 {
+			k := zzsym.Pick("kvorderN", len(rest))
+			order = append(order, rest[k])
+			rest = append(rest[:k:k], rest[k+1:]...)
+		}
+		order = append(order, rest[0])
+	}
 	if n == 2 && zzsym.Bool("kvorder2") {
 		order = []int{1, 0}
 	}
 	if n == 3 {
 		order = zzPerms3[zzsym.Pick("kvorder3", 6)]
 	}
-	ch := make(chan query.Result, 4)
+	ch := make(chan query.Result, 8)
 	for _, i := range order {
 		ch <- query.Result{Entry: query.Entry{Key: k.keys[i], Value: k.vals[i], Size: len(k.vals[i])}}
 	}
